@@ -5,7 +5,11 @@ Local Open Scope list_scope.
 (* every field of Server, dir, dirRepo, dirRepoUpload, mem, memRepo, memRepoUpload and Cache that some method writes is
    read and written only with the structure's own mutex held (Access.called_locked and Access.lockfree_ok list the
    methods / fields exempted, each with its reason) *)
-Theorem C13_lockset : access_violations gen_access = [].
+Theorem C13_lockset : access_violations_al gen_aliases gen_access = [].
+Proof. vm_compute. reflexivity. Qed.
+
+(* (the table of wrappers only adds fields to the written ones: the discipline without it follows) *)
+Theorem C13_lockset_plain : access_violations gen_access = [].
 Proof. vm_compute. reflexivity. Qed.
 
 (* the mutexes those accesses rely on are acquired and released in a disciplined way (balanced per function, ranked) *)
